@@ -428,6 +428,33 @@ def r16_9(run, model):
     no_import_skipped(run, model, "R16.9")
 
 
+def r16_10(run, model):
+    run.rule("R16.10", "a package's own extern type keeps its foreign name: name resolution qualifies the goml name of an extern type with its "
+                       "package (`Lib::Time`), so the Go-side name stored next to it is derived without the qualifier (or given "
+                       "separately) - the back end prints `<alias>.<go_name>`")
+    from rules import c07
+    ENV = "crates/compiler/src/env.rs"
+    f = model.fn("register_extern_type", ENV, impl="TypeEnv")
+    lits = [st for st in S.walk(f.body) if st["k"] == "Struct" and st["segs"][-1] == "ExternType"]
+    if not lits:
+        raise AnalysisIncomplete("register_extern_type: ExternType literal not found")
+    keyparams = [p["pat"]["name"] for p in f.params() if not p["self"] and p["pat"]["k"] == "PIdent"]
+    for st in lits:
+        fl = next((x for x in st["fields"] if x["name"] == "go_name"), None)
+        if fl is None:
+            raise AnalysisIncomplete("ExternType literal without go_name")
+        e = fl["expr"]
+        chain = [S.norm_ws(run.facts.text(ENV, e["sp"]))]
+        for i in S.idents(e):
+            chain += c07._origin_chain(run, f, ENV, st, i)
+        src = " <- ".join(chain)
+        stripped = re.search(r"r?split(_once)?\(\"::\"\)|rfind\(\"::\"\)|strip_prefix", src) is not None
+        other_param = len(keyparams) > 1 and any(p in S.idents(e) for p in keyparams[1:])
+        run.ob("R16.10", "register_extern_type|Go name of an extern type carries no package qualifier", stripped or other_param, site(ENV, st["sp"]),
+               f"go_name = {src[:120]}",
+               witness="package Lib { extern type Time; extern \"go\" \"time\" now() -> Time }: the output contains `type _goml_Lib_x3a__x3a_Time = time.Lib::Time`, which is not Go")
+
+
 def run(run, model):
     mir = Mir(run.facts)
     run.try_rule(r16_1, model, mir)
@@ -438,6 +465,7 @@ def run(run, model):
     run.try_rule(r16_7, model)
     run.try_rule(r16_8, model)
     run.try_rule(r16_9, model)
+    run.try_rule(r16_10, model)
     from rules import c04
     run.rule("R16.6", "a package missing from the link inputs is reported, not skipped (shared with C04 R04.8)")
     run.try_rule(c04.r04_8, model)
